@@ -1180,8 +1180,7 @@ package astits
 // descriptor.go, write side: the length announced for a descriptor loop is the sum of what each descriptor occupies
 // (2 bytes of tag and length plus the body length, no 8-bit overflow on the way).
 //@ func calcDescriptorsLength
-//@   requires 0 <= len(ds) && allocated(ds) && forall(k, 0, len(ds), ds[k] != nil)
-//@   opt nopre
+//@   requires 0 <= len(ds) && allocated(ds) && forall(k, 0, len(ds), descOK(ds[k]))
 //@   loop 0 invariant [C14,C13,C09] idx: rangeindex == iter - 1 && iter <= len(ds)
 //@   loop 0 assert [C14,C13,C09] step: length == pre(length) + 2 + u16(retof(calcDescriptorLength, 0))
 
@@ -1383,6 +1382,7 @@ package astits
 //@   let n0 = old(wN(w))
 //@   ensures [C14,C13,C09] header: result1 == nil ==> wb(w, n0, 0) == d.Tag && (tagCovered(d.Tag) ==> wb(w, n0, 1) == u8(dLen(d)))
 //@   ensures [C14,C13,C09] whole: tagCovered(d.Tag) && result1 == nil ==> wN(w) == n0 + 2 + dLen(d) && result0 == 2 + dLen(d) && aligned(w)
+//@   ensures [C14,C13,C09] prefix: wPrefix(w)
 
 // Not under contract (items of variable size, nested loops, pointer-to-slice bodies): nothing is assumed about
 // the lengths they compute or emit, and nothing is claimed for their tags.
@@ -1403,3 +1403,10 @@ package astits
 //@   modifies writer(w)
 //@   ensures [C14,C13,C09] prefix: wPrefix(w)
 // END generated descriptor write contracts
+
+// writeDescriptors: the count returned is the number of bytes emitted (every descriptor occupying 2 + its length).
+//@ func writeDescriptors
+//@   requires aligned(w) && 0 <= wN(w) && wN(w) < 0x100000000000 && 0 <= len(ds) && len(ds) <= 4096 && allocated(ds) && forall(k, 0, len(ds), descOK(ds[k]) && bodyPresent(ds[k]) && dLen(ds[k]) <= 255 && tagCovered(ds[k].Tag))
+//@   modifies writer(w)
+//@   loop 0 invariant [C14,C13,C09] idx: rangeindex == iter - 1 && iter <= len(ds) && aligned(w) && wN(w) == old(wN(w)) + written && 0 <= written && written <= 257 * iter && wPrefix(w)
+//@   ensures [C14,C13,C09] count: result1 == nil ==> wN(w) == old(wN(w)) + result0 && aligned(w) && wPrefix(w)
